@@ -76,7 +76,7 @@ fn gen_cfg(rng: &mut Rng, expose: bool) -> Cfg {
     if rng.chance(1, 4) { let k = rng.below(rows.len() as u64) as usize; let dup = rows[k].clone(); rows.insert(k, dup); }
     // 1 configuration in 30: a row with three feature columns of about 3000 bytes each (every cell below the 4096-byte
     // field buffer, an expansion over several columns far above 8192 bytes)
-    let long_cols = rng.chance(1, 30);
+    let long_cols = rng.chance(1, 12);
     if long_cols {
         let col = |c: char| -> String { std::iter::repeat(c).take(2900 + 17).collect() };
         // (the middle column is made of three-byte characters after one or two ASCII letters: a 4096-byte chunk of the
